@@ -733,7 +733,8 @@ def c18(ctx):
     # implementation-shaped model of the Next loop under the io.Reader contract: safety + liveness for every reader
     # behaviour within the bounds, and the livelock of a zero-length read buffer as negative control
     for (l1, l2, l3, buf, cut) in ([(2, 1, 3, 3, 0), (2, 1, 3, 1, 0), (2, 1, 3, 2, 1), (1, 2, 0, 1, 1)] if ctx.quick else
-                                   [(a, b, c, buf, cut) for (a, b, c) in ((2, 1, 3), (1, 1, 1), (3, 0, 0), (2, 2, 0)) for buf in (1, 2, 3, 5) for cut in (0, 1)]):
+                                   [(a, b, c, buf, cut) for (a, b, c) in ((2, 1, 3), (1, 1, 2), (3, 0, 0), (2, 2, 0)) for buf in (1, 2, 3, 5) for cut in (0, 1)]):
+        # (Cut must stay below the length of the last value: cutting a whole value off leaves a shorter, clean stream)
         core.tlc_model_check(ctx, "ImplDecoder", dict(L1=l1, L2=l2, L3=l3, BufLen=buf, MaxZero=2, Cut=cut),
                              ["OneValuePerNext", "CleanEnd", "TruncationIsError", "AllDelivered", "CutIsNeverClean"],
                              "ImplDecoder-%d%d%d-buf%d-cut%d" % (l1, l2, l3, buf, cut), workers=2, properties=["Termination", "Completes"])
@@ -852,6 +853,15 @@ def c17(ctx):
                         continue
                     cases.append(case("C17", "reuse", fmt, stream=alpha[pi], opts=dict(html=True, radix=False, ignf=True),
                                       sub=dict(component="enc", history=[alpha[i] for i in hist]), origin="enc history %s" % (hist,)))
+    # ---- every TLC-enumerated stream (all slot fillings the other checks use) once as history and probe of an encoder:
+    # the idle depth must be reached after ANY stream, not only after those of the alphabet
+    every = []
+    for shp in shapes:
+        every += streams.fills(shp, 1, rnd)
+    rnd.shuffle(every)
+    for n, st in enumerate(every[: 30000 if ctx.quick else 300000]):
+        fmt = ("json", "ubjson", "cborl")[n % 3]
+        cases.append(case("C17", "reuse", fmt, stream=st, opts=dict(html=True, radix=False, ignf=True), sub=dict(component="enc", history=[st]), origin="enc every stream twice"))
     # ---- parsers and decoders
     for fmt in ("cborl", "ubjson", "json"):
         rows = [r["doc"] for r in GENS[fmt](ctx, "lang", quick=True) if r["class"] == "complete" and 2 <= len(r["doc"]) <= 24]
@@ -943,7 +953,8 @@ def c17(ctx):
              "from the TLC generators: scalars, strings, empty/nested containers, known/unknown lengths, typed containers, every family "
              "of extended events) followed by every probe from the same alphabet (quick: half of the longest histories, seeded), for the "
              "3 encoders, the 3 parsers (Parse per document and Write+end) and the 3 pull decoders (byte slice and scripted reader); in "
-             "addition EVERY complete document of the quick language generators (<= 40 bytes) once as history and probe of a parser/decoder; "
+             "addition EVERY complete document of the quick language generators (<= 40 bytes) once as history and probe of a parser/decoder "
+             "and every TLC-enumerated event stream (<= 6 events, all slot fillings) once as history and probe of an encoder; "
              "TraceCodec!ReuseVerdict compares the probe on the reused instance with a fresh instance and the depth accessors after "
              "every document with a new instance's. Distinct = distinct (component, history, probe); non-trivial = history not empty."
              % (H, A),
